@@ -260,8 +260,9 @@ def post_lmr_ctor(C):
 def build(reg):
     reg.add(Contract('parameter_reader::get_string_value', PROP, pre=pre_gsv, post=post_gsv, safety={'null-deref'}, assigns=[]))
     reg.add(Contract('parameter_reader::read_numerical_parameters', PROP, post=post_numerical, split_heap_ifs=False))
-    reg.add(Contract('parameter_reader::read_cell_type_parameters', PROP, pre=pre_section, post=post_cell_type))
-    reg.add(Contract('parameter_reader::read_face_type_parameters', PROP, pre=pre_section, post=post_face_type))
+    # 'narrowing': every integer conversion that can lose the value (std::stoi's int stored in a short id field) must be shown in range
+    reg.add(Contract('parameter_reader::read_cell_type_parameters', PROP, pre=pre_section, post=post_cell_type, safety={'narrowing'}))
+    reg.add(Contract('parameter_reader::read_face_type_parameters', PROP, pre=pre_section, post=post_face_type, safety={'narrowing'}))
     reg.add(Contract('parameter_reader::read_biomechanical_parameters', PROP, pre=face_loop_pre, post=face_loop_post, slice_loop=1, use=[read_face_contract()],
                      name='parameter_reader::read_biomechanical_parameters::<face type loop body>'))
     reg.add(Contract('time_integration_scheme::time_integration_scheme', PROP, signature='global_simulation_parameters', post=post_time_integrator))
